@@ -10,6 +10,7 @@ import (
 	"regexp"
 	"strings"
 
+	"github.com/JunNishimura/Goit/internal/object"
 	"github.com/JunNishimura/Goit/internal/sha"
 	"github.com/spf13/cobra"
 )
@@ -53,6 +54,15 @@ var updateRefCmd = &cobra.Command{
 		newHash, err := sha.ReadHash(hashString)
 		if err != nil {
 			return ErrInvalidHash
+		}
+
+		// a branch must point to a commit: reject ids of blobs and trees
+		newObject, err := object.GetObject(client.RootGoitPath, newHash)
+		if err != nil {
+			return ErrInvalidHash
+		}
+		if newObject.Type != object.CommitObject {
+			return fmt.Errorf("fatal: trying to write ref '%s' with non-commit object %s", args[0], hashString)
 		}
 
 		if err := client.Refs.UpdateBranchHash(client.RootGoitPath, branchName, newHash); err != nil {
